@@ -1109,7 +1109,8 @@ def replay_transports(chk, n, loopback: bool):
     lb = Loopback() if loopback else None
     try:
         bases = ["http://127.0.0.1:8080/api", "http://127.0.0.1:8080", "http://127.0.0.1:8080/api/v1/"]
-        pipes = {b: Pipeline(defs, "/items/{id}/sub", b, body={"application/json": {}}, method="post") for b in bases}
+        media = {"application/json": {}, "application/x-www-form-urlencoded": {"type": "object"}, "text/plain": {"type": "string"}}
+        pipes = {b: Pipeline(defs, "/items/{id}/sub", b, body=media, method="post") for b in bases}
         for i in range(n):
             base = rng.choice(bases)
             pl = pipes[base]
@@ -1117,9 +1118,16 @@ def replay_transports(chk, n, loopback: bool):
                    "query": {"q": gen_text(rng, 5), "tags": [gen_text(rng, 3) for _ in range(rng.randrange(0, 3))]},
                    "header": {"X-Token": "".join(rng.choice(TOKEN_CHARS + " ,;=") for _ in range(rng.randrange(1, 6))).strip() or "t"},
                    "cookie": {"sid": "".join(rng.choice(TOKEN_CHARS) for _ in range(rng.randrange(1, 6)))}}
-            body = rng.choice(BODIES)
+            mt = rng.choice(["application/json"] * 3 + ["application/x-www-form-urlencoded", "text/plain"])
+            if mt == "application/json":
+                body = rng.choice(BODIES)
+            elif mt == "text/plain":
+                body = gen_text(rng, 8)
+            else:
+                body = {(gen_text(rng, 3) or "k"): rng.choice([gen_text(rng, 4), 5, "a b&c=d"]) for _ in range(rng.randrange(1, 4))}
+            form = mt == "application/x-www-form-urlencoded"
             try:
-                case = pl.case(raw, body=copy.deepcopy(body), media_type="application/json")
+                case = pl.case(raw, body=copy.deepcopy(body), media_type=mt)
             except Rejected:
                 chk.feature("transport:rejected-by-is_valid-filter")
                 continue
@@ -1130,6 +1138,8 @@ def replay_transports(chk, n, loopback: bool):
                     "cookies": sorted(cookie_pairs(prep.headers.get("Cookie"))),
                     "body": prep.body if isinstance(prep.body, bytes) else (prep.body or "").encode("utf-8"),
                     "tcid": prep.headers.get(SCHEMATHESIS_TEST_CASE_HEADER)}
+            if form:   # a form body is compared as the list of decoded fields (the encoders may spell a space differently)
+                want["body"] = parse_qsl(want["body"].decode("ascii"), keep_blank_values=True)
             sends = [("wsgi", lambda: WSGI_TRANSPORT.send(case, app=wsgi_app), wsgi_app),
                      ("asgi", lambda: ASGI_TRANSPORT.send(case, app=asgi_app), asgi_app)]
             if lb is not None and i % 4 == 0:
@@ -1138,13 +1148,29 @@ def replay_transports(chk, n, loopback: bool):
             for t, fn, rec in sends:
                 rec.last = None
                 try:
-                    fn()
+                    resp = fn()
                 except Exception as e:  # noqa: BLE001
                     chk.violation(f"C06:transport[{t}]:send-raised-{type(e).__name__}", f"{t} transport raised {e!r}",
-                                  {"mechanism": "transport", "raw": raw, "body": body, "base": base})
+                                  {"mechanism": "transport", "raw": raw, "body": body, "media_type": mt, "base": base})
                     continue
                 got = rec.last
-                chk.case(f"transport[{t}]", key=[t, base, raw, repr(body)], nontrivial=True,
+                chk.feature(f"transport:body={mt}")
+                if form:
+                    got["body"] = guard(lambda: parse_qsl(got["body"].decode("ascii"), keep_blank_values=True))
+                # the request kept for reports (Response.request) is the prepared request
+                if t != "loopback":
+                    rr = resp.request
+                    rsp = urlsplit(rr.url)
+                    rbody = rr.body if isinstance(rr.body, bytes) else (rr.body or "").encode("utf-8")
+                    recorded = {"path": unquote_to_bytes(rsp.path), "query": parse_qsl(rsp.query, keep_blank_values=True),
+                                "content-type": rr.headers.get("Content-Type"), "cookies": sorted(cookie_pairs(rr.headers.get("Cookie"))),
+                                "body": parse_qsl(rbody.decode("ascii"), keep_blank_values=True) if form else rbody}
+                    for part, v in recorded.items():
+                        if v != want[part]:
+                            chk.violation(f"C06:transport[{t}]:recorded-{part}-differs-from-prepared-request",
+                                          f"{t} transport: Response.request has {part}={v!r}, the prepared request has {want[part]!r}",
+                                          {"mechanism": "transport", "raw": raw, "body": body, "media_type": mt, "base": base, "transport": t})
+                chk.case(f"transport[{t}]", key=[t, base, raw, mt, repr(body)], nontrivial=True,
                          sample={"raw": raw, "body": body, "received_path": repr(got.get("path_bytes") or got.get("raw_path"))})
                 chk.feature(f"transport:{t}")
                 if t == "wsgi":
@@ -1161,7 +1187,7 @@ def replay_transports(chk, n, loopback: bool):
                     if v != want[part]:
                         chk.violation(f"C06:transport[{t}]:{part}-differs-from-prepared-request",
                                       f"{t} transport delivered {part}={v!r}, the prepared request has {want[part]!r}",
-                                      {"mechanism": "transport", "raw": raw, "body": body, "base": base, "transport": t})
+                                      {"mechanism": "transport", "raw": raw, "body": body, "media_type": mt, "base": base, "transport": t})
                 if t == "loopback" and got["raw_path"] != sp.path:
                     chk.violation("C06:transport[loopback]:raw-path-re-encoded", f"wire path {got['raw_path']!r} != prepared {sp.path!r}",
                                   {"mechanism": "transport", "raw": raw, "body": body, "base": base, "transport": t})
@@ -1221,6 +1247,357 @@ def coverage_stability(chk):
                             break
 
 
+
+# ---- histories of calls: what one call leaves behind for the next ----------------------------------------------------------
+#
+# Quantifier part "histories": the request of the n-th call on an application is determined by the n-th case (as generated)
+# and the configuration of the n-th call alone.  A history is a sequence of `case.call(params=…, cookies=…, session=…)` on
+# one application through one transport; the application answers scripted `Set-Cookie` headers; cases are re-sent with
+# different configurations.  Model: lean/SV/Model/C06Session.lean (`runTrace`), specification: lean/SV/Spec/C06Session.lean
+# (`cookiesOk`, `queryOk`, `recordedOk`, judged on what the real transports delivered).
+
+HIST_DOC = {"openapi": "3.0.2", "info": {"title": "t", "version": "1"}, "paths": {
+    "/items": {"get": {"parameters": [{"name": "q", "in": "query", "schema": {"type": "string"}},
+                                      {"name": "r", "in": "query", "schema": {"type": "string"}},
+                                      {"name": "sid", "in": "cookie", "schema": {"type": "string"}},
+                                      {"name": "tok", "in": "cookie", "schema": {"type": "string"}}],
+                       "responses": {"200": {"description": "ok"}}}},
+    "/login": {"post": {"parameters": [{"name": "r", "in": "query", "schema": {"type": "string"}},
+                                       {"name": "sid", "in": "cookie", "schema": {"type": "string"}}],
+                        "responses": {"200": {"description": "ok"}}}}}}
+HIST_OPS = [["/items", "GET"], ["/login", "POST"]]
+HIST_Q, HIST_C, HIST_SC, HIST_H = ["q", "r", "p"], ["sid", "tok", "w", "auth"], ["w", "sid", "s2"], ["X-Cfg", "X-Other"]
+HIST_TOKEN = "abcXYZ019"
+KF_MERGE_AT = "C06:merge_at:configured-params-or-cookies-written-into-the-case"
+KF_RECORDED = "C06:WSGITransport.send:recorded-request-lacks-configured-params"
+KF_COOKIE_HEADER = "C06:WSGITransport.send:generated-Cookie-header-not-sent"
+
+
+def hist_token(rng, origin):
+    """values name their origin (g: generated, c: configured, s: Set-Cookie, u: the user's session): no accidental equality"""
+    return origin + "".join(rng.choice(HIST_TOKEN) for _ in range(rng.randrange(1, 3)))
+
+
+def hist_dict(rng, keys, p_none, p_empty, origin):
+    r = rng.random()
+    if r < p_none:
+        return None
+    if r < p_none + p_empty:
+        return {}
+    return {k: hist_token(rng, origin) for k in rng.sample(keys, min(len(keys), rng.choice([1, 1, 2])))}
+
+
+def gen_history(rng, via):
+    store = [{"op": rng.choice(HIST_OPS), "query": hist_dict(rng, HIST_Q[:2], 0.3, 0.1, "g"),
+              "cookies": hist_dict(rng, HIST_C[:2], 0.4, 0.1, "g"), "headers": hist_dict(rng, ["X-Gen"], 0.5, 0.1, "g")}
+             for _ in range(rng.choice([1, 2, 2, 3]))]
+    with_session = via == "wsgi" and rng.random() < 0.3
+    calls = []
+    for _ in range(rng.choice([2, 2, 3, 3, 4, 5])):
+        sc = []
+        if rng.random() < 0.5:
+            # with a session of the user's, cookie_handler's delete-by-name would also remove a cookie of the same name that the
+            # session holds or the response sets: that corner is a Lean witness only, not part of the compared family
+            for name in rng.sample(["s2", "s3"] if with_session else HIST_SC, rng.choice([1, 1, 2])):
+                sc.append([name, None if rng.random() < 0.2 else hist_token(rng, "s")])
+        calls.append({"ix": rng.randrange(len(store)), "params": hist_dict(rng, HIST_Q, 0.6, 0.05, "c"),
+                      "cookies": hist_dict(rng, HIST_C, 0.6, 0.05, "c"), "headers": hist_dict(rng, HIST_H, 0.75, 0.05, "c"),
+                      "explicit": with_session and rng.random() < 0.6, "setCookies": sc})
+    user_jar = {"u": hist_token(rng, "u"), **({"v": hist_token(rng, "u")} if rng.random() < 0.3 else {})} if with_session else {}
+    return {"via": via, "store": store, "calls": calls, "userJar": user_jar}
+
+
+def set_cookie_header(name, value):
+    if value is None:
+        return f"{name}=; Expires=Thu, 01 Jan 1970 00:00:00 GMT; Max-Age=0; Path=/"
+    return f"{name}={value}; Path=/"
+
+
+def pairs(d):
+    return None if d is None else [[k, v] for k, v in d.items()]
+
+
+class HistoryRig:
+    """the three real transports, each against a recording application that answers scripted `Set-Cookie` headers"""
+
+    def __init__(self, loopback: bool):
+        self.lb = Loopback() if loopback else None
+
+    def close(self):
+        if self.lb is not None:
+            self.lb.close()
+
+    def vias(self):
+        return ["wsgi", "asgi"] + (["requests"] if self.lb is not None else [])
+
+    def run(self, h):
+        """-> list of observations (one per call; the list is shorter when a call raised: last item is 'EXC:…')"""
+        import schemathesis
+
+        via = h["via"]
+        schema = schemathesis.openapi.from_dict(copy.deepcopy(HIST_DOC))
+        if via == "requests":
+            rec = self.lb
+            schema.configure(base_url=f"http://127.0.0.1:{self.lb.port}/api")
+        else:
+            rec = WsgiRecorder() if via == "wsgi" else AsgiRecorder()
+            schema.configure(app=rec)
+        cases = [schema[c["op"][0]][c["op"][1]].Case(query=copy.deepcopy(c["query"]), cookies=copy.deepcopy(c["cookies"]),
+                                                      headers=copy.deepcopy(c.get("headers")))
+                 for c in h["store"]]
+        client = None
+        if any(c["explicit"] for c in h["calls"]):
+            import werkzeug
+
+            client = werkzeug.Client(rec)
+            for k, v in h["userJar"].items():
+                client.set_cookie(k, v, domain="localhost")
+        out = []
+        for call in h["calls"]:
+            case = cases[call["ix"]]
+            kwargs = {k: copy.deepcopy(call[k]) for k in ("params", "cookies", "headers") if call[k] is not None}
+            if call["explicit"]:
+                kwargs["session"] = client
+            rec.set_cookies = [set_cookie_header(n, v) for n, v in call["setCookies"]]
+            rec.last = None
+            try:
+                resp = case.call(**kwargs)
+            except Exception as e:  # noqa: BLE001
+                out.append(f"EXC:{type(e).__name__}")
+                break
+            finally:
+                rec.set_cookies = []
+            got, req = rec.last, resp.request
+            out.append({
+                "wire": {"query": [list(p) for p in parse_qsl(got["query"], keep_blank_values=True)],
+                         "cookies": [list(p) for p in cookie_pairs(got["headers"].get("cookie"))]},
+                "recorded": {"query": [list(p) for p in parse_qsl(urlsplit(req.url).query, keep_blank_values=True)],
+                             "cookies": [list(p) for p in cookie_pairs(req.headers.get("Cookie"))]},
+                "caseAfter": {"query": pairs(case.query), "cookies": pairs(case.cookies)},
+                "headers": sorted(got["headers"])})
+        return out
+
+
+def hist_wire(h):
+    """the history in the driver's encoding"""
+    return {"store": [{"query": pairs(c["query"]), "cookies": pairs(c["cookies"])} for c in h["store"]],
+            "calls": [{"ix": c["ix"], "params": pairs(c["params"]), "cookies": pairs(c["cookies"]), "explicit": c["explicit"],
+                       "setCookies": c["setCookies"]} for c in h["calls"]],
+            "userJar": pairs(h["userJar"])}
+
+
+def canon_sent(s):
+    return {"query": sorted(map(tuple, s["query"])), "cookies": sorted(map(tuple, s["cookies"]))}
+
+
+def detect_variant_merge_at() -> str:
+    from schemathesis.core.transforms import merge_at
+
+    own = {"a": "1"}
+    merge_at({"k": own}, "k", {"b": "2"})
+    return "asFound" if "b" in own else "repaired"
+
+
+def detect_variant_params() -> str:
+    pl = Pipeline([{"name": "q", "in": "query", "schema": {"type": "string"}}], "/u", "http://127.0.0.1/api")
+    kw = REQUESTS_TRANSPORT.serialize_case(pl.operation.Case(query={"q": "x"}), base_url=pl.base_url, params={"p": "1"})
+    return "repaired" if (kw["params"] or {}).get("p") == "1" else "asFound"
+
+
+HIST_WITNESS = {"store": [{"op": HIST_OPS[1], "query": None, "cookies": None, "headers": None},
+                          {"op": HIST_OPS[0], "query": {"q": "x"}, "cookies": None, "headers": None}],
+                "calls": [{"ix": 0, "params": None, "cookies": None, "headers": None, "explicit": False, "setCookies": [["w", "s3"]]},
+                          {"ix": 1, "params": None, "cookies": None, "headers": None, "explicit": False, "setCookies": []}],
+                "userJar": {}}
+
+
+def detect_client_policy(rig, via) -> str:
+    """witness history: does a cookie set by the first response come back with the second call?"""
+    obs = rig.run({**HIST_WITNESS, "via": via})
+    if len(obs) == 2 and isinstance(obs[1], dict) and ["w", "s3"] in obs[1]["wire"]["cookies"]:
+        return "perApp"
+    return "perCall"
+
+
+def judge_history(chk, h, obs, model, verdicts, variants_known):
+    """replay: the specification's verdict on every request the real transport delivered"""
+    via = h["via"]
+    earlier_set, earlier_own_c, earlier_own_q, earlier_headers = set(), set(), set(), set()
+    case_now = {ix: {"query": pairs(c["query"]), "cookies": pairs(c["cookies"])} for ix, c in enumerate(h["store"])}
+    for i, (call, o) in enumerate(zip(h["calls"], obs)):
+        replay = {"mechanism": "history", "history": h, "call_index": i, "observed": o}
+        if isinstance(o, str):
+            chk.violation(f"C06:history[{via}]:send-raised-{o[4:]}", f"call #{i} of the history raised {o}", replay)
+            return
+        v, m = verdicts[i], model[i]
+        case0 = h["store"][call["ix"]]
+        explained = canon_sent(m["wire"]) == canon_sent(o["wire"]) and \
+            canon_sent(m["recorded"])["query"] == canon_sent(o["recorded"])["query"]
+        own_c = {tuple(p) for p in v["ownCookies"]}
+        own_q = {tuple(p) for p in v["ownQuery"]}
+        if not v["cookiesOk"]:
+            got = {tuple(p) for p in o["wire"]["cookies"]}
+            extra, missing = got - own_c - {tuple(p) for p in (v["userJar"] or [])}, own_c - got
+            in_case = {tuple(p) for p in case_now[call["ix"]]["cookies"] or []}
+            if extra and extra <= in_case and explained and variants_known["merge_at"] == "asFound":
+                sig, why = KF_MERGE_AT, f"{sorted(extra)} were configured for an earlier call of the same case only"
+            elif extra and extra <= in_case:
+                sig, why = f"C06:history[{via}]:case-changed-by-an-earlier-call", f"{sorted(extra)} were written into the case by an earlier call"
+            elif extra & earlier_set:
+                sig, why = f"C06:history[{via}]:cookie-set-by-an-earlier-response-sent-with-a-later-call", \
+                    f"{sorted(extra & earlier_set)} were set by the response to an earlier call"
+            elif extra and extra <= earlier_own_c:
+                sig, why = f"C06:history[{via}]:cookie-of-an-earlier-call-sent-again", f"{sorted(extra)} belong to an earlier call"
+            elif extra:
+                sig, why = f"C06:history[{via}]:cookie-neither-generated-nor-configured", f"{sorted(extra)} belong to neither"
+            else:
+                sig, why = f"C06:history[{via}]:cookie-of-the-call-not-sent", f"{sorted(missing)} did not arrive"
+            chk.feature(f"history:lost:{sig.split(':', 2)[2]}")
+            chk.violation(sig, f"{via}, call #{i}: the request arrived with cookies {o['wire']['cookies']!r}; the case as generated has "
+                          f"{case0['cookies']!r}, the call configures {call['cookies']!r}"
+                          f"{', the session of the user holds ' + repr(v['userJar']) if call['explicit'] else ''}: {why}", replay)
+        if not v["queryOk"]:
+            got = {tuple(p) for p in o["wire"]["query"]}
+            extra = got - own_q
+            in_case = {tuple(p) for p in case_now[call["ix"]]["query"] or []}
+            if extra and extra <= in_case and explained and variants_known["merge_at"] == "asFound":
+                sig = KF_MERGE_AT
+            elif extra and extra <= in_case:
+                sig = f"C06:history[{via}]:case-changed-by-an-earlier-call"
+            elif extra and extra <= earlier_own_q:
+                sig = f"C06:history[{via}]:query-entry-of-an-earlier-call-sent-again"
+            elif extra:
+                sig = f"C06:history[{via}]:query-entry-neither-generated-nor-configured"
+            else:
+                sig = f"C06:history[{via}]:generated-query-entry-not-sent"
+            chk.feature(f"history:lost:{sig.split(':', 2)[2]}")
+            chk.violation(sig, f"{via}, call #{i}: the request arrived with query {o['wire']['query']!r}; the case as generated has "
+                          f"{case0['query']!r}, the call configures {call['params']!r}", replay)
+        if not v["recordedOk"]:
+            lacks_params = via == "wsgi" and call["params"] and explained and variants_known["params"] == "asFound" and \
+                canon_sent(o["recorded"])["query"] != canon_sent(o["wire"])["query"]
+            sig = KF_RECORDED if lacks_params else f"C06:history[{via}]:recorded-request-differs-from-the-sent-one"
+            chk.feature(f"history:lost:{sig.split(':', 2)[2]}")
+            chk.violation(sig, f"{via}, call #{i}: Response.request has query {o['recorded']['query']!r} / cookies "
+                          f"{o['recorded']['cookies']!r}, the application received {o['wire']['query']!r} / {o['wire']['cookies']!r}", replay)
+        # header names (python mirror of `headers_only_expected`): a header configured for an earlier call only must not come back
+        mine = {k.lower() for k in (call["headers"] or {})} | {k.lower() for k in (case0.get("headers") or {})}
+        unexpected = sorted((set(o["headers"]) & earlier_headers) - mine)
+        if unexpected:
+            chk.violation(f"C06:history[{via}]:header-of-an-earlier-call-sent-again", f"{via}, call #{i}: headers {unexpected} were "
+                          "configured for an earlier call only", replay)
+        missing_h = sorted(mine - set(o["headers"]))
+        if missing_h:
+            chk.violation(f"C06:history[{via}]:generated-or-configured-header-not-sent", f"{via}, call #{i}: headers {missing_h} of "
+                          "the case / the call's configuration did not arrive", replay)
+        if all((v["cookiesOk"], v["queryOk"], v["recordedOk"])) and not unexpected:
+            chk.feature("history:call-carries-its-own-case-only")
+        case_now[call["ix"]] = o["caseAfter"]
+        earlier_set |= {(n, val) for n, val in call["setCookies"] if val is not None}
+        earlier_own_c |= own_c
+        earlier_own_q |= own_q
+        earlier_headers |= mine
+
+
+def replay_cookie_header(chk, n, rig_loopback: bool):
+    """a generated header parameter named `Cookie` is a generated header like any other: with no cookies in the case and
+    none configured, the application must receive exactly that header (judged with the RFC 6265 cookie-string reader)"""
+    import schemathesis
+
+    rng = chk.rng
+    doc = {"openapi": "3.0.2", "info": {"title": "t", "version": "1"}, "paths": {"/items": {"get": {"parameters": [
+        {"name": "Cookie", "in": "header", "schema": {"type": "string"}}], "responses": {"200": {"description": "ok"}}}}}}
+    lb = Loopback() if rig_loopback else None
+    try:
+        for i in range(n):
+            via = ["wsgi", "asgi", "requests"][i % 3] if lb is not None else ["wsgi", "asgi"][i % 2]
+            value = "; ".join(f"{name}={hist_token(rng, 'g')}" for name in rng.sample(["h", "sid", "k"], rng.choice([1, 2])))
+            schema = schemathesis.openapi.from_dict(copy.deepcopy(doc))
+            if via == "requests":
+                rec = lb
+                schema.configure(base_url=f"http://127.0.0.1:{lb.port}/api")
+            else:
+                rec = WsgiRecorder() if via == "wsgi" else AsgiRecorder()
+                schema.configure(app=rec)
+            case = schema["/items"]["GET"].Case(headers={"Cookie": value}, cookies=rng.choice([None, {}]))
+            rec.last = None
+            replay = {"mechanism": "cookie-header", "via": via, "value": value, "cookies": case.cookies}
+            try:
+                resp = case.call()
+            except Exception as e:  # noqa: BLE001
+                chk.violation(f"C06:transport[{via}]:send-raised-{type(e).__name__}", f"{via} transport raised {e!r}", replay)
+                continue
+            got = rec.last["headers"].get("cookie")
+            chk.case(f"transport[{via}]:generated-cookie-header", key=[via, value], nontrivial=True,
+                     sample={"via": via, "generated": value, "received": got, "recorded": resp.request.headers.get("Cookie")})
+            if cookie_pairs(got) != cookie_pairs(value):
+                sig = KF_COOKIE_HEADER if via == "wsgi" and got is None else f"C06:transport[{via}]:generated-Cookie-header-altered"
+                chk.violation(sig, f"{via}: the case has the generated header Cookie: {value!r} and no cookies; the application received "
+                              f"Cookie: {got!r} (Response.request says {resp.request.headers.get('Cookie')!r})", replay)
+    finally:
+        if lb is not None:
+            lb.close()
+
+
+
+def corr_history(chk, n, loopback: bool):
+    rng, drv = chk.rng, chk.driver()
+    rig = HistoryRig(loopback)
+    try:
+        vm, vp = detect_variant_merge_at(), detect_variant_params()
+        chk.variants.update({"merge_at": vm, "serialize_case.params": vp})
+        pols = {}
+        for via in rig.vias():
+            pols[via] = detect_client_policy(rig, via)
+            chk.variants[f"client[{via}]"] = pols[via]
+        hs = []
+        for i in range(n):
+            via = rng.choice(["wsgi", "wsgi", "asgi"]) if (i % 6 or "requests" not in rig.vias()) else "requests"
+            hs.append(gen_history(rng, via))
+        hs += [{**copy.deepcopy(HIST_WITNESS), "via": via} for via in rig.vias()]
+        observed = [rig.run(h) for h in hs]
+    finally:
+        rig.close()
+    models = drv.batch([("session_trace", {"via": h["via"], "pol": pols[h["via"]], "vm": vm, "vp": vp, **hist_wire(h)}) for h in hs])
+    verdicts = drv.batch([("session_judge", {**hist_wire(h), "observed": [o for o in obs if isinstance(o, dict)]})
+                          for h, obs in zip(hs, observed)])
+    for h, obs, m, v in zip(hs, observed, models, verdicts):
+        model_err(m, h)
+        model_err(v, h)
+        via = h["via"]
+        mech = f"history[{via}]"
+        chk.case(mech, key=h, nontrivial=len(h["calls"]) > 1, sample={"history": h, "observed": obs})
+        chk.feature(f"history:via={via}")
+        chk.feature(f"history:calls={len(h['calls'])}")
+        for call in h["calls"]:
+            for k in ("params", "cookies", "headers"):
+                if call[k]:
+                    chk.feature(f"history:configured-{k}")
+            if call["setCookies"]:
+                chk.feature("history:response-sets-cookies")
+            if call["explicit"]:
+                chk.feature("history:call-with-the-user's-session")
+        if len({c["ix"] for c in h["calls"]}) < len(h["calls"]):
+            chk.feature("history:case-sent-more-than-once")
+        # correspondence: the model's history is the implementation's (canonical: entries as sorted pairs)
+        for i, o in enumerate(obs):
+            if isinstance(o, str):
+                break
+            mo = m[i]
+            if h["calls"][i]["explicit"]:   # whether the record repeats the cookies of the user's session is not part of the contract
+                names = {k for k, _ in v[i]["ownCookies"]}
+                mo = {**mo, "recorded": {**mo["recorded"], "cookies": [p for p in mo["recorded"]["cookies"] if p[0] in names]}}
+                o = {**o, "recorded": {**o["recorded"], "cookies": [p for p in o["recorded"]["cookies"] if p[0] in names]}}
+            same = canon_sent(mo["wire"]) == canon_sent(o["wire"]) and canon_sent(mo["recorded"]) == canon_sent(o["recorded"]) \
+                and all((None if mo["caseAfter"][k] is None else sorted(map(tuple, mo["caseAfter"][k])))
+                        == (None if o["caseAfter"][k] is None else sorted(map(tuple, o["caseAfter"][k]))) for k in ("query", "cookies"))
+            if not same:
+                chk.disagreement(mech, {"history": h, "call_index": i, "variants": {"merge_at": vm, "params": vp, "client": pols[via]}},
+                                 {k: mo[k] for k in ("wire", "recorded", "caseAfter")}, {k: o[k] for k in ("wire", "recorded", "caseAfter")})
+                break
+        judge_history(chk, h, obs, m, v, {"merge_at": vm, "params": vp})
+
+
 def run(chk):
     import time
 
@@ -1258,6 +1635,9 @@ def run(chk):
     lap("headers+bodies+template")
     replay_transports(chk, chk.budget(150, 2000), loopback=chk.thorough)
     lap("transports")
+    corr_history(chk, chk.budget(400, 5000), loopback=True)
+    replay_cookie_header(chk, chk.budget(30, 300), True)
+    lap("histories")
     fill_evidence(chk)
     chk.exhaustive = False
 
@@ -1279,6 +1659,18 @@ def fill_evidence(chk):
         "path_default_style_not_serialized, absent_explode_object_not_serialized: the hypotheses are necessary / the "
         "known-bad cells really are bad (kernel-checked witnesses)",
         "headers_only_expected, generated_header_sent, content_type_is_media_type (+ wsgi_overwrites_generated_content_type witness)",
+        "history_independent (full: new client per call, merge_at on a copy, params honoured; all three transports): for every "
+        "history of calls — any cases, interleaving, per-call params / cookies, Set-Cookie answers, calls with a session of the "
+        "user's in between — every request sent without a session carries exactly its own case's (as generated) and its own "
+        "call's cookies and query entries, Response.request is the sent request, no case is changed by being sent; "
+        "send_leaves_case_unchanged; history_independent_full_false (code as found: configured params / cookies are written "
+        "into the case and sent again), shadowed_params_break_the_record, memoized_client_leaks (a client kept per application: "
+        "a cookie set by one response is sent with the next call) — kernel-checked witnesses; history_independent_partial (as "
+        "found, histories whose calls configure neither params nor cookies)",
+        "session_wire_only_expected, case_cookies_do_not_persist, session_jar_only_from_responses, cookie_handler_cleans_up "
+        "(+ session_cookie_shadowed_by_case_is_deleted witness): with a session of the user's (WSGI) a request carries the call's "
+        "cookies and otherwise only cookies of that session; the call's cookies never stay in the client; the session only gains "
+        "what responses set",
     ]
     chk.partial += [
         "values: primitives (str, int, bool, null) and arrays / objects of primitives; floats and deeper nesting reach Python's "
@@ -1289,6 +1681,10 @@ def fill_evidence(chk):
         "urljoin is modelled for http(s) base URLs without query / fragment / params and relative references that are plain "
         "paths (which quote() guarantees); the origin (scheme://host:port) is passed through unmodelled",
         "str.format is modelled for templates made of literal text and {name} fields only",
+        "histories: the state between calls is modelled as the case's own query / cookies dicts (str -> str) and the cookie jar "
+        "of the client (one domain, Path=/, cookies set or expired by name); headers configured per call are judged on the wire "
+        "only (prepare_headers copies: no state); cookies with Domain / Path / Secure attributes, redirects and a session of the "
+        "user's on the requests transport (requests.Session's own jar semantics) are outside the model",
     ]
     chk.sampled_only += [
         "requests' PreparedRequest (requote_uri, params / cookie / header encoding), werkzeug's EnvironBuilder and the ASGI test "
@@ -1298,6 +1694,11 @@ def fill_evidence(chk):
         "WSGI and ASGI transports deliver the same path, query, headers, cookies and body as the prepared requests.Request "
         "(in-process recording apps on every run; a real loopback HTTP server in the thorough tier)",
         "cookie values are drawn without ';' (a ';' inside a cookie value splits the cookie: same unescaped-join loss as F13)",
+        "form and text bodies through the WSGI / ASGI transports and Response.request of those transports: compared with the "
+        "prepared request on sampled cases",
+        "the cookie jars of werkzeug's test Client, starlette's TestClient and requests.Session are third party: the model's "
+        "set / delete / Set-Cookie semantics is compared with them on every generated history (loopback HTTP server for "
+        "requests), not verified",
     ]
     chk.assumptions += [
         "a standards-conforming server percent-decodes each path segment / query component first and then applies the "
@@ -1309,6 +1710,8 @@ def fill_evidence(chk):
     chk.trusted += [
         "lean/SV/Spec/C06*.lean: our reading of RFC 3986 (percent-encoding, path segments), RFC 3629, RFC 6265 cookie-string, the "
         "OpenAPI 3.0 style table; pctDecode and utf8Decode are differentially checked against urllib / CPython on every run",
+        "lean/SV/Spec/C06Session.lean: cookiesOk / queryOk / recordedOk — our reading of 'the request carries the generated case "
+        "and nothing else' for the n-th request of a history (configured additions are allowed, not promised)",
         "harness/gens/c06_pipeline.py: drives the real get_parameters_strategy glue through a constant strategy "
         "(hypothesis.internal ConjectureData.for_choices + BuildContext)",
     ]
@@ -1356,6 +1759,27 @@ def replay(chk, data):
         a = {k: r[k] for k in ("t", "caseH", "cfg", "ua", "tcid", "mediaType", "multipart", "bodySet", "extra")}
         print("model:", drv.one("headers", a))
         print("(impl: re-run ./check C06 — the case id is random)")
+    elif mech == "history":
+        h = r["history"]
+        rig = HistoryRig(loopback=h["via"] == "requests")
+        try:
+            pol = detect_client_policy(rig, h["via"])
+            obs = rig.run(h)
+        finally:
+            rig.close()
+        vm_, vp_ = detect_variant_merge_at(), detect_variant_params()
+        print("variants now:", {"merge_at": vm_, "serialize_case.params": vp_, f"client[{h['via']}]": pol})
+        model = drv.one("session_trace", {"via": h["via"], "pol": pol, "vm": vm_, "vp": vp_, **hist_wire(h)})
+        verdicts = drv.one("session_judge", {**hist_wire(h), "observed": [o for o in obs if isinstance(o, dict)]})
+        for i, (call, o) in enumerate(zip(h["calls"], obs)):
+            print(f"call #{i}: case {call['ix']} {h['store'][call['ix']]} configured params={call['params']} cookies={call['cookies']} "
+                  f"session={call['explicit']} answers Set-Cookie {call['setCookies']}")
+            print("   impl now :", o if isinstance(o, str) else {k: o[k] for k in ("wire", "recorded", "caseAfter")})
+            if isinstance(o, dict):
+                print("   model    :", {k: model[i][k] for k in ("wire", "recorded", "caseAfter")})
+                print("   spec     :", verdicts[i])
+    elif mech == "cookie-header":
+        print("re-run ./check C06: every run sends generated `Cookie` headers through the three transports")
     elif "input" in r:
         print("model (recorded):", r.get("model"))
         print("impl  (recorded):", r.get("impl"))
